@@ -926,7 +926,7 @@ def lib_write(block, sink=None):
             n = int(block.nBytes)
         except Exception:  # noqa - e.g. an item that cannot be sized: any stream will do
             n = 0
-        sink = ("fresh", "prefilled", "fresh", "prefilled", "fresh", "file", "prefilled", "gzip")[(n // 4 + n // 36 + len(type(block).__name__)) % 8]
+        sink = ("fresh", "prefilled", "fresh", "prefilled", "append", "file", "prefilled", "gzip")[(n // 4 + n // 36 + len(type(block).__name__)) % 8]
     if sink == "fresh":
         b = io.BytesIO()
         block._write(b)
@@ -943,6 +943,14 @@ def lib_write(block, sink=None):
     d = env.fresh_dir()
     try:
         path = os.path.join(d, "w.bin")
+        if sink == "append":
+            # a file opened for appending: it claims to be seekable, but every write goes to the end
+            with open(path, "wb") as f:
+                f.write(b"\x55" * 11)
+            with open(path, "ab") as f:
+                block._write(f)
+            with open(path, "rb") as f:
+                return f.read()[11:]
         if sink == "file":
             with open(path, "wb") as f:
                 f.write(b"\x55" * 7)
@@ -1007,6 +1015,24 @@ def lib_decode(t, fmt, data, tail=b"", head=None):
             env.rmdir(d)
     st_ = io.BytesIO(head + data + bytes(tail))
     st_.seek(len(head))
+    if kind == 3:
+        # ... and not always in the thread that imported the library: a worker thread of the application decodes just the same
+        import threading
+
+        box = {}
+
+        def work():
+            try:
+                box["blk"] = lib_class(t)._build(st_, fmt)
+            except BaseException as e:  # noqa
+                box["e"] = e
+
+        th = threading.Thread(target=work)
+        th.start()
+        th.join()
+        if "e" in box:
+            raise box["e"]
+        return box["blk"], st_.tell() - len(head)
     blk = lib_class(t)._build(st_, fmt)
     return blk, st_.tell() - len(head)
 
